@@ -1,5 +1,6 @@
 """symx: symbolic execution of the real emg3d source on z3 terms."""
 from .core import (Ctx, ctx, set_ctx, Q, Qc, B, Z, F64, symint, Inconclusive,
                    Infeasible, f64_model_value, NAN, NaNQ, SStr, symstr,
-                   PathAbort, sym_array, qt, model_value, sqrt, ufun_apply)
+                   PathAbort, sym_array, qt, model_value, sqrt, ufun_apply,
+                   symfloat)
 from .proxies import symnp, symsp, symnb, State, SymArray, has_sym
